@@ -12,7 +12,8 @@ trap 'git -C /repo checkout -- . 2>/dev/null; git -C /repo clean -fdq -- src 2>/
 pass=0; fail=0; known_miss=0
 list=$(ls "$ROOT"/sensitivity/*.diff "$ROOT"/seeded/*/patch.diff 2>/dev/null)
 for p in $list; do
-  case "$p" in *"$PAT"*) ;; *) continue;; esac
+  # (the pattern is an extended regular expression; a plain substring is one)
+  if [ -n "$PAT" ] && ! [[ "$p" =~ $PAT ]]; then continue; fi
   case "$p" in
     */sensitivity/*) name=$(basename "$p" .diff); prop=${name%%-*};;
     # (run_check: the check whose seam the defect needs, when that is not the check of the property the agent aimed at)
